@@ -763,12 +763,44 @@ impl Stringify for Value {
                     stringifier.write_token("}}", None, &end_location)?;
                     Ok(())
                 }
-                split_expression(
-                    &expression,
-                    stringifier,
-                    &double_brace_location.0,
-                    &double_brace_location.1,
-                )?;
+                // Only the concatenations built by the parser for mixed text are split again;
+                // a `+` or a string literal written by the user stays inside its binding.
+                fn is_mixed_text_chain(expr: &Expression) -> Option<bool> {
+                    match expr {
+                        Expression::ToStringWithoutUndefined { .. } => Some(true),
+                        Expression::LitStr { .. } => Some(false),
+                        Expression::Plus { left, right, .. } => {
+                            let left = is_mixed_text_chain(left)?;
+                            match &**right {
+                                Expression::ToStringWithoutUndefined { .. } => Some(true),
+                                Expression::LitStr { .. } => Some(left),
+                                _ => None,
+                            }
+                        }
+                        _ => None,
+                    }
+                }
+                let is_plain_text = match &**expression {
+                    // a lone string literal is printed as the text it denotes,
+                    // unless it would vanish as insignificant whitespace
+                    Expression::LitStr { value, .. } => {
+                        value.is_empty()
+                            || !value.chars().all(|c| matches!(c, ' ' | '\x09'..='\x0D'))
+                    }
+                    _ => false,
+                };
+                if is_plain_text || is_mixed_text_chain(&expression) == Some(true) {
+                    split_expression(
+                        &expression,
+                        stringifier,
+                        &double_brace_location.0,
+                        &double_brace_location.1,
+                    )?;
+                } else {
+                    stringifier.write_token("{{", None, &double_brace_location.0)?;
+                    expression.stringify_write(stringifier)?;
+                    stringifier.write_token("}}", None, &double_brace_location.1)?;
+                }
             }
         }
         Ok(())
